@@ -1,5 +1,6 @@
 """C11 -- suspend/resume and directed switches hand control as documented
 (structural part)."""
+import re
 from abtverif import canon, cfg, seq
 from abtverif.seq import idx, is_call, show
 from . import common, C02, C06, C12
@@ -38,7 +39,7 @@ Y = "src/ythread.c"
 
 def classify_callback(P, name):
     """'yield' | 'suspend' | 'exit' | 'other' from the callback's effect on p_prev on every path."""
-    F = P.fn(name, Y)
+    F = P.fn(name, Y, flat=True)
     BLOCKED = P.enum_consts["ABT_THREAD_STATE_BLOCKED"]
     calls = {"ABTI_pool_add_thread", "ABTI_thread_terminate", "ABTI_thread_handle_request", "ythread_callback_yield_impl"}
     # canonical label of the cancellation test: `ABTI_thread_handle_request(..) & CANCELLED`, true = the bit is set
@@ -374,10 +375,15 @@ def rule_R8(P, rep):
         rep.need(sites, "%s does not call %s" % (fn, prim))
         for i in sites:
             conds = ctrldep.conditions(F, i)
-            ok = any(lab.count("==") == 1 and ("ABTI_thread_get_ptr(%s)" % tp) in lab and not val and
-                     ("p_thread" in lab.split("==")[0 if ("ABTI_thread_get_ptr(%s)" % tp) in lab.split("==")[1] else 1] or
-                      "ythread" in lab.split("==")[0 if ("ABTI_thread_get_ptr(%s)" % tp) in lab.split("==")[1] else 1])
-                     for lab, val, _a in conds)
+            def is_self_test(lab, val):
+                if val or lab.count(" == ") != 1:
+                    return False
+                a, b = lab.split(" == ")
+                tgt = "ABTI_thread_get_ptr(%s)" % tp
+                other = b if tgt in a else (a if tgt in b else None)
+                # the other side is the caller: anything but a constant (NULL tests carry no `==` in canonical form)
+                return other is not None and not re.match(r"^-?\d+$|^\(void \*\)0$", other.strip())
+            ok = any(is_self_test(lab, val) for lab, val, _a in conds)
             rep.ob("R8", "%s switches only after testing that the target is not the caller" % fn, ok,
                    "no governing `target == caller` test (false) before %s: %s" % (prim, [c[0] for c in conds][:6]),
                    loc=F.loc(i), site="%s/self-target" % fn)
